@@ -59,6 +59,84 @@ def same(cname, x, homs, sigma):
     return True, ""
 
 
+# ---- observational equivalence with a fresh object ------------------------------------------------------------------
+SKIP_MEMBERS = {"plot", "animate", "printline", "Rand", "append", "extend", "insert", "pop", "clear", "reverse", "remove",
+                "sort", "copy", "count", "index", "stack", "data", "Alloc", "Empty"}
+
+
+def _flat(v, depth=0):
+    """a comparable numeric rendering of an accessor's value (None if it has none)"""
+    if depth > 3:
+        return None
+    if hasattr(v, "data") and isinstance(getattr(v, "data"), list):
+        return [_flat(a, depth + 1) for a in v.data]
+    if isinstance(v, (list, tuple)):
+        return [_flat(a, depth + 1) for a in v]
+    if isinstance(v, (bool, np.bool_)):
+        return float(v)
+    if isinstance(v, (int, float, np.integer, np.floating)):
+        return float(v)
+    if isinstance(v, np.ndarray) and v.dtype.kind in "fiub":
+        return v.astype(float)
+    if hasattr(v, "vec") and hasattr(v, "__len__"):
+        return np.asarray(v.vec, dtype=float)
+    return None
+
+
+def _close(a, b_, tol):
+    if a is None or b_ is None:
+        return True
+    if isinstance(a, list) or isinstance(b_, list):
+        return isinstance(a, list) and isinstance(b_, list) and len(a) == len(b_) and all(_close(x, y, tol) for x, y in zip(a, b_))
+    a, b_ = np.asarray(a, dtype=float), np.asarray(b_, dtype=float)
+    if a.shape != b_.shape:
+        return False
+    if a.size == 0:
+        return True
+    both_nan = np.isnan(a) & np.isnan(b_)
+    return bool(np.all(both_nan | (np.abs(a - b_) <= tol * np.maximum(1.0, np.abs(b_)))))
+
+
+def fresh_equivalent(cname, x, homs, sigma):
+    """every zero-argument accessor / method of the live object x returns what it returns on a FRESH object built from
+    the same values (a stale cache, a value computed from earlier contents, ... shows up as a difference).
+    Returns the name of the first member that differs, or None."""
+    import inspect
+    y = obj(cname, homs, sigma)
+    y.data = [np.array(a, copy=True) for a in x.data]           # bit-identical contents, no history
+    C = type(x)
+    for name in sorted(a for a in dir(C) if not a.startswith("_") and a not in SKIP_MEMBERS):
+        try:
+            attr = inspect.getattr_static(C, name)
+        except AttributeError:
+            continue
+        if isinstance(attr, (classmethod, staticmethod)):
+            continue
+        res = []
+        for o in (y, x):
+            try:
+                v = getattr(o, name)
+                if not isinstance(attr, property):
+                    if not callable(v):
+                        res.append(("skip", None))
+                        continue
+                    sig = inspect.signature(v)
+                    if [p for p in sig.parameters.values()
+                            if p.default is inspect._empty and p.kind in (p.POSITIONAL_ONLY, p.POSITIONAL_OR_KEYWORD)]:
+                        res.append(("skip", None))
+                        continue
+                    v = v()
+                res.append(("val", _flat(v)))
+            except Exception as ex:  # noqa: BLE001
+                res.append(("raise", type(ex).__name__))
+        (k1, v1), (k2, v2) = res
+        if k1 == "skip" or k2 == "skip":
+            continue
+        if k1 != k2 or (k1 == "raise" and v1 != v2) or (k1 == "val" and not _close(v2, v1, 1e-9)):
+            return name
+    return None
+
+
 def apply(cname, x, call, sigma):
     """execute one call on the live object x; returns (new x, operand objects used, result of pop)"""
     op = call["op"]
@@ -120,7 +198,7 @@ def features(call, n):
     return ";".join(f) or "-"
 
 
-def replay(j, pid, cname, hist, sigma=1.0, site_prefix="seq"):
+def replay(j, pid, cname, hist, sigma=1.0, site_prefix="seq", fresh=True):
     """drive one behaviour; failures go to judge j with keys <pid>|seq.<op>|<class>;<features>|<mode>"""
     x = obj(cname, hist[0]["post"], sigma)
     prev = hist[0]["post"]
@@ -189,4 +267,14 @@ def replay(j, pid, cname, hist, sigma=1.0, site_prefix="seq"):
         else:
             j.ok(cid, nontrivial=len(prev) > 1 or len(post) > 1)
             x = x2
+            if fresh and len(post) >= 1 and k % 3 == 0:
+                # the live object (with its history) is observationally equivalent to a fresh object with the same values
+                bad = fresh_equivalent(cname, x, post, sigma)
+                cidf = (site_prefix, "fresh-equivalence", cname)
+                if bad:
+                    j.fail("%s|%s.%s|%s;after=%s|differs-from-fresh-object-with-same-values" % (pid, cname, bad, cname, op),
+                           dict(detail, member=bad), cidf)
+                    x = obj(cname, post, sigma)
+                else:
+                    j.ok(cidf)
         prev = post
